@@ -71,7 +71,11 @@ ROUTES = ('ctor', 'set_rules', 'file', 'ctor+own', 'set_rules+own',
           'dir-removed',
           # the policy file is loaded and then rewritten a quarter of a second
           # later, inside the same whole second
-          'file-rewritten-at-once')
+          'file-rewritten-at-once',
+          # ONE Rules object is handed to two enforcers with different
+          # default rules; the other enforcer then merges more names in and
+          # the caller empties its object
+          'set_rules-shared')
 
 
 def bound(tier):
@@ -209,6 +213,19 @@ def build(P, parse_rule, ruleset, cfg, route, w):
         for q in QUERIES:
             enf.enforce(q, {}, {'roles': []})
         w.write('policy.yaml', world.dumps_policy(ruleset))
+        return enf
+    if route == 'set_rules-shared':
+        conf = world.new_conf(**overrides)
+        shared = P.Rules.from_dict(ruleset)
+        enf = P.Enforcer(conf, use_conf=False, **kw)
+        enf.set_rules(shared, use_conf=False)
+        other = P.Enforcer(world.new_conf(), use_conf=False,
+                           default_rule=parse_rule('@'))
+        other.set_rules(shared, use_conf=False)
+        other.set_rules({'zz': parse_rule('@'), 'nope': parse_rule('@')},
+                        overwrite=False, use_conf=False)
+        if ruleset:
+            shared.clear()
         return enf
     if route == 'file+late':
         in_file = {k: v for k, v in ruleset.items() if k != 'x'}
